@@ -18,7 +18,7 @@ go test -vet=off -count=1 -timeout 25m $pkgs > "$d/.suite.log" 2>&1; suite=$?
 demo=$(ls "$d"/demo*_test.go "$d"/demo_test.go 2>/dev/null | head -1)
 if [ -z "$demo" ]; then echo "VERIFY $d: no demo_test.go"; exit 1; fi
 place=$(grep -m1 -o 'place at: *[^ ]*' "$demo" | sed 's/place at: *//')
-runline=$(grep -m1 -o "go test .*" "$demo" | sed "s#/tmp/wt/C[0-9]*#$wt#g")
+runline=$(grep -m1 -o "go test .*" "$demo" | sed "s#/tmp/wt/[A-Za-z0-9]*#$wt#g")
 [ -z "$place" ] && { echo "VERIFY $d: demo has no 'place at:' line"; exit 1; }
 mkdir -p "$(dirname "$place")"; cp "$demo" "$place"
 run="env GOFLAGS=-mod=mod GOPROXY=off $runline"
